@@ -7,8 +7,8 @@ K  correspondence: the real functions (`_iterate_cigar`, `split_cigar_left/right
    `create_read_from_group`) are called directly with synthetic inputs and, on every alignment of the generated
    BAMs, compared exactly with the Lean model (`whmodel`, ops `c06.*`).
 O  oracle with ground truth: in-process `ReadSetReader.read` on generated BAM/FASTA/VCF (with and without a
-   reference); for every (read, variant) of error-free reads with canonical CIGARs the recorded allele is compared
-   with the allele the haplotype carries (definitions of *fully covers*, *isolated*, *normalised position* as fixed
+   reference; reads spread over 1-3 BAM files with re-used read names, a read = (file, name)); for every (read, variant) of
+   error-free reads with canonical CIGARs the recorded allele is compared with the allele the haplotype carries (definitions of *fully covers*, *isolated*, *normalised position* as fixed
    in DESIGN §5 C06).
 """
 import json, logging, os, shutil
@@ -22,7 +22,10 @@ from ..gen import c06_filter as F
 
 RULE = ("(read, variant) pairs of error-free reads (exact copies of a haplotype, canonical CIGAR with indels at the "
         "normalised position; decorated with S/H clips, N skips, =/X, unrelated indels, mates) over random references "
-        "(4- and 2-letter alphabets) with SNV/MNP/insertion/deletion variants, isolated and close (0–14 bp apart); plus "
+        "(4- and 2-letter alphabets) with SNV/MNP/insertion/deletion variants, isolated and close (0–14 bp apart); the reads are "
+        "distributed over 1-3 alignment files that number their reads independently (one name = unrelated molecules of either haplotype "
+        "in different files, or the same molecule twice), a name shared WITHIN a file = mates or primary + supplementary alignment of "
+        "one template; a read is identified by (file, name); reader with/without supplementary alignments, sample or all read groups; plus "
         "synthetic calls of the walker / prefix / split / realign / no-reference detector. A pair is non-trivial if the "
         "read overlaps the variant (or lies within 12 bp of it); a synthetic call is non-trivial if it yields or "
         "decides something. distinct = distinct (variant kind, allele, CIGAR around the variant, offsets to read "
@@ -89,6 +92,7 @@ KEY_F11 = "second-nonref-allele-in-window"
 KEY_F12 = "paired-end-opposite-orientation-mate-dropped"
 KEY_F13 = "noref-multibase-allele-not-found"
 KEY_CONFLICT = "noref-variant-discarded-as-conflicting"
+KEY_SHARED_LOST = "detected-allele-missing-read-name-shared-between-files"
 # development aid: C06_ASIS=F12,F13,F14,F15 compares with the model of the code as it was before the fixes
 ASIS = [x for x in os.environ.get("C06_ASIS", "").split(",") if x]
 
@@ -805,14 +809,29 @@ def write_inputs(d, case):
     contigs = {"chr1": case["ref"]}
     hv = [G.HVar.from_list(l) for l in case["hvars"]]
     listed = [(i, v) for i, v in enumerate(hv) if v.listed]
-    fa, bam, vcf = (os.path.join(d, "in" + e) for e in (".fasta", ".bam", ".vcf"))
+    fa, vcf = (os.path.join(d, "in" + e) for e in (".fasta", ".vcf"))
     sim.write_fasta(fa, contigs)
-    reads = [{"name": r["name"], "chrom": "chr1", "start": r["start"], "cigar": [tuple(x) for x in r["cigar"]], "seq": r["seq"],
-              "flag": r["flag"], "rg": "rg1", "mapq": 60, "qual": 30} for r in case["reads"]]
-    sim.write_bam(bam, contigs, reads, [("rg1", "S1")])
+    bams = []
+    for f in range(case.get("n_files", 1)):
+        # one alignment file per source; a read name means something only within its file
+        reads = [{"name": r["name"], "chrom": "chr1", "start": r["start"], "cigar": [tuple(x) for x in r["cigar"]], "seq": r["seq"],
+                  "flag": r["flag"], "rg": "rg1", "mapq": 60, "qual": 30} for r in case["reads"] if r.get("src", 0) == f]
+        if not reads:
+            # a BAM without any record is refused (EmptyAlignmentFileError): a decoy that every configuration filters
+            reads.append({"name": "decoy", "chrom": "chr1", "start": 0, "cigar": [(0, 5)], "seq": case["ref"][:5],
+                          "flag": F.FLAG_SECONDARY, "rg": "rg1", "mapq": 0, "qual": 30})
+        bam = os.path.join(d, f"in{f}.bam")
+        sim.write_bam(bam, contigs, reads, [("rg1", "S1")])
+        bams.append(bam)
     sim.write_vcf(vcf, contigs, ["S1"], [{"chrom": "chr1", "pos": v.pos, "ref": v.ref, "alts": [v.alt], "calls": [{"GT": "0/1"}],
                                            "format": ["GT"]} for _, v in listed])
-    return fa, bam, vcf, hv, listed
+    return fa, bams, vcf, hv, listed
+
+
+def akey(m):
+    """identity of one alignment record of a generated case: (file, read name, flag, start) - mates differ by flag, a
+    supplementary alignment by flag 0x800"""
+    return (m.get("src", 0), m["name"], m["flag"], m["start"])
 
 
 def run_scenario(ctx, case, label):
@@ -825,9 +844,12 @@ def run_scenario(ctx, case, label):
     shutil.rmtree(d, ignore_errors=True)
     os.makedirs(d)
     try:
-        fa, bam, vcf, hv, listed = write_inputs(d, case)
+        fa, bams, vcf, hv, listed = write_inputs(d, case)
         if not listed:
             return
+        rcfg = case.get("cfg") or {}
+        use_supp, supp_thr = bool(rcfg.get("supplementary", False)), rcfg.get("threshold", 100000)
+        sample = rcfg.get("sample", "S1")        # None = --ignore-read-groups: every record of every file is the sample's
         tables = list(VcfReader(vcf, only_snvs=False))
         vlist = tables[0].variants if tables else []
         if [(v.position, v.reference_allele) for v in vlist] != [(v.pos, v.ref) for _, v in listed]:
@@ -835,12 +857,20 @@ def run_scenario(ctx, case, label):
             return
         fasta = IndexedFasta(fa)
         reads = G.case_reads(case)
+        # a read (template) is identified by (file, name): the same name in another file is another molecule
         by_name = {}
         for r in reads:
-            by_name.setdefault(r["name"], []).append(r)
-        # alignments exactly as whatshap fetches them
-        with pysam.AlignmentFile(bam) as af:
-            alns = [a for a in af.fetch("chr1")]
+            by_name.setdefault((r["src"], r["name"]), []).append(r)
+        names_of = {}
+        for (f_, n_) in by_name:
+            names_of.setdefault(n_, set()).add(f_)
+        ctx.dist("scenario.files", f"{len(bams)} file(s), " + ("names shared between files" if any(len(x) > 1 for x in names_of.values())
+                                                               else "names unique"))
+        # alignments exactly as whatshap fetches them (file by file; a supplementary record only if the reader admits them)
+        alns = []
+        for f_, b_ in enumerate(bams):
+            with pysam.AlignmentFile(b_) as af:
+                alns += [(f_, a) for a in af.fetch("chr1") if not a.is_secondary and (use_supp or not a.is_supplementary)]
         vjson = [[v.pos, v.ref, [v.alt]] for _, v in listed]
         for mode in ("ref", "noref", "affine"):
             # "affine": the re-alignment of `whatshap genotype --affine-gap` (default costs); there is no such option in
@@ -848,9 +878,10 @@ def run_scenario(ctx, case, label):
             refarg = fasta["chr1"] if mode != "noref" else None
             akw = dict(affine=True, gap_start=AFFINE_DEFAULT[0], gap_extend=AFFINE_DEFAULT[1],
                        default_mismatch=AFFINE_DEFAULT[2]) if mode == "affine" else {}
-            reader = ReadSetReader([bam], reference=None, numeric_sample_ids=NumericSampleIds(), **akw)
+            reader = ReadSetReader(bams, reference=None, numeric_sample_ids=NumericSampleIds(), use_supplementary=use_supp,
+                                   supplementary_distance_threshold=supp_thr, **akw)
             try:
-                rs = reader.read("chr1", vlist, "S1", refarg)
+                rs = reader.read("chr1", vlist, sample, refarg)
             except Exception as e:  # a crash on error-free reads with valid CIGARs: nothing is recorded at all
                 ctx.evaluated()
                 ctx.fail(f"{mode}: ReadSetReader.read raised {_exc(e)} on error-free reads with canonical CIGARs",
@@ -860,10 +891,10 @@ def run_scenario(ctx, case, label):
                 reader.close()
             got = {}
             for r in rs:
-                got[r.name] = [[v.position, v.allele, v.quality] for v in r]
+                got[(r.source_id, r.name)] = [[v.position, v.allele, v.quality] for v in r]
             # ---- K: per alignment model, then group model
             reqs = []
-            for a in alns:
+            for _, a in alns:
                 if mode == "ref":
                     reqs.append(dict(op="c06.detect_ref", variants=vjson, j=0, ref_start=a.reference_start, cigar=[list(x) for x in a.cigartuples],
                                      query=a.query_sequence, reference=case["ref"], overhang=10, asis=ASIS))
@@ -880,32 +911,34 @@ def run_scenario(ctx, case, label):
             per_aln_model = {}
             groups = {}
             order = []
-            for a, m in zip(alns, outs):
+            for (src, a), m in zip(alns, outs):
                 impl = impl_detect(mode, vlist, a, case["ref"])
                 ctx.evaluated()
                 mm = {"out": m.get("out"), "err": m.get("err")}
                 if impl != mm:
-                    ctx.disagree(f"c06.detect_{mode}", {"label": label, "read": a.query_name, "start": a.reference_start,
+                    ctx.disagree(f"c06.detect_{mode}", {"label": label, "read": a.query_name, "src": src, "start": a.reference_start,
                                                         "cigar": a.cigarstring, "query": a.query_sequence, "variants": vjson,
                                                         "reference": case["ref"] if mode != "noref" else None}, impl, mm)
                 det = [[vjson[i][0], al, q] for i, al, q in (impl["out"] or [])]
-                per_aln[(a.query_name, a.is_read2)] = {p: al for p, al, _ in det}
-                per_aln_model[(a.query_name, a.is_read2)] = {vjson[i][0]: al for i, al, q in (mm["out"] or [])}
+                ak = (src, a.query_name, a.flag, a.reference_start)
+                per_aln[ak] = {p: al for p, al, _ in det}
+                per_aln_model[ak] = {vjson[i][0]: al for i, al, q in (mm["out"] or [])}
                 if det:
-                    if a.query_name not in groups:
-                        order.append(a.query_name)
-                    groups.setdefault(a.query_name, []).append({"supp": a.is_supplementary, "rev": a.is_reverse, "start": a.reference_start,
-                                                                "end": a.reference_end, "variants": det})
+                    gk = (src, a.query_name)
+                    if gk not in groups:
+                        order.append(gk)
+                    groups.setdefault(gk, []).append({"supp": a.is_supplementary, "rev": a.is_reverse, "start": a.reference_start,
+                                                      "end": a.reference_end, "variants": det})
             if mode == "affine":
                 # qualities are differences of distances (<= 0): the merge of mates is compared by the filter stream (`c06.read`)
                 gouts, exp = [], got
             else:
-                gouts = ctx.model.ask_many([dict(op="c06.group", group=groups[n], threshold=100000, asis=ASIS) for n in order])
+                gouts = ctx.model.ask_many([dict(op="c06.group", group=groups[n], threshold=supp_thr, asis=ASIS) for n in order])
                 exp = {n: g for n, g in zip(order, gouts) if g is not None}
             if exp != got:
-                diff = [n for n in set(exp) | set(got) if exp.get(n) != got.get(n)]
-                ctx.disagree(f"c06.readset_{mode}", {"label": label, "names": diff[:5], "case": case},
-                             {n: got.get(n) for n in diff[:5]}, {n: exp.get(n) for n in diff[:5]})
+                diff = sorted(n for n in set(exp) | set(got) if exp.get(n) != got.get(n))
+                ctx.disagree(f"c06.readset_{mode}", {"label": label, "names": [list(n) for n in diff[:5]], "case": case},
+                             {f"{n[0]}:{n[1]}": got.get(n) for n in diff[:5]}, {f"{n[0]}:{n[1]}": exp.get(n) for n in diff[:5]})
             # ---- O: ground truth
             valid = None
             if mode == "noref":
@@ -940,12 +973,25 @@ def impl_detect(mode, vlist, aln, reference):
 
 def oracle(ctx, case, label, mode, hv, listed, by_name, got, per_aln, valid=None, per_aln_model=None):
     vidx = {i: n for n, (i, _) in enumerate(listed)}     # index into the VCF variant list
-    for name, mates in by_name.items():
-        rec = {p: a for p, a, _ in got.get(name, [])}
+    shared = {}
+    for (src, name) in by_name:
+        shared[name] = shared.get(name, 0) + 1
+    # a Read that belongs to no generated template (a name/file combination that was never written)
+    for k in got:
+        if k not in by_name:
+            ctx.evaluated()
+            ctx.fail(f"{mode}: the ReadSet contains a read {k[1]!r} with source id {k[0]}, but file {k[0]} has no alignment of that name",
+                     {"label": label, "mode": mode, "read": k[1], "src": k[0], "case": case}, key="read-of-unknown-template")
+    for (src, name), mates in by_name.items():
+        rec = {p: a for p, a, _ in got.get((src, name), [])}
+        multi = ("/shared-name" if shared[name] > 1 else "") + ("/supplementary" if any(m["supp"] for m in mates) else "")
         for i, v in listed:
             ts = [m["truth"][i] for m in mates]
             overlap = any(t["overlap"] for t in ts)
             fulls = [t for t in ts if t["full"]]
+            # "always found" is demanded of the primary alignments (mates); whether a supplementary alignment is used at all is
+            # the reader's business (option, strand, distance): for a variant only it covers the demand is "carried or none"
+            prim_full = any(m["truth"][i]["full"] for m in mates if not m["supp"])
             partial = any(t["overlap"] and not t["full"] for t in ts)
             g = rec.get(v.pos)
             near = min((abs(m["start"] - v.pos) for m in mates), default=99)
@@ -953,13 +999,20 @@ def oracle(ctx, case, label, mode, hv, listed, by_name, got, per_aln, valid=None
                 continue  # trivial: far away
             ctx.evaluated()
             ctx.dist(f"pairs.{mode}", f"{v.kind}:{'full' if fulls else ('partial' if partial else 'no-overlap')}")
+            if multi:
+                ctx.dist(f"pairs.templates", f"{'overlap' if overlap else 'no-overlap'}{multi}")
             def where():
-                return {"label": label, "mode": mode, "read": name, "variant": repr(v), "kind": v.kind, "recorded": g,
+                return {"label": label, "mode": mode, "read": name, "src": src, "variant": repr(v), "kind": v.kind, "recorded": g,
                         "mates": [{"start": m["start"], "cigar": m["cigar"], "flag": m["flag"], "truth": m["truth"][i]} for m in mates],
                         "case": case}
             if not overlap:
                 if g is not None:
-                    ctx.fail(f"allele {g} recorded for variant {v!r} the read does not overlap ({mode})", where(),
+                    others = [f"file {f}: " + ", ".join(f"{m['start']}..{m['start'] + G.cigar_ref_len(m['cigar'])} (haplotype {m['hap']})"
+                                                         for m in ms) for (f, n), ms in by_name.items() if n == name and f != src]
+                    ctx.fail(f"allele {g} recorded for variant {v!r} the read does not overlap ({mode})"
+                             + (f"; read {name!r} of file {src} aligns to " + ", ".join(f"{m['start']}..{m['start'] + G.cigar_ref_len(m['cigar'])}"
+                                                                                         for m in mates)
+                                + "; a different molecule of the same name exists in " + "; ".join(others) if others else ""), where(),
                              key="allele-for-non-overlapped-variant")
                 continue
             if not fulls or partial:
@@ -971,21 +1024,28 @@ def oracle(ctx, case, label, mode, hv, listed, by_name, got, per_aln, valid=None
             isolated = all(t["isolated"] for t in fulls)
             near_n = min((t["near_n"] for t in fulls if t["near_n"] is not None), default=None)
             demanded_noref = v.kind == "snv" or (v.kind in ("ins", "del") and not v.shiftable)
-            ctx.nontrivial((mode, v.kind, a, len(v.ref), len(v.alt), isolated, near_n if near_n is not None and near_n < 12 else -1,
+            ctx.nontrivial((mode, v.kind, a, len(v.ref), len(v.alt), isolated, near_n if near_n is not None and near_n < 12 else -1, multi,
                             tuple(tuple(m["cigar"]) for m in mates) if len(str(mates[0]["cigar"])) < 60 else len(mates[0]["cigar"]),
                             tuple(v.pos - m["start"] for m in mates)))
             if g == a:
                 continue
             if g is None and len(mates) > 1:
                 # mates that disagree make the merged read drop the position: judge the mate that saw the other allele
-                seen = [per_aln.get((name, m["mate"] == 1), {}).get(v.pos) for m in mates if m["truth"][i]["full"]]
+                seen = [per_aln.get(akey(m), {}).get(v.pos) for m in mates if m["truth"][i]["full"]]
                 wrong = [d for d in seen if d is not None and d != a]
                 if wrong:
                     g = wrong[0]
             if g is None:
                 # not found
-                found_by_mate = any(per_aln.get((name, m["mate"] == 1), {}).get(v.pos) == a for m in mates if m["truth"][i]["full"])
-                if len(mates) > 1 and found_by_mate:
+                found_by_mate = any(per_aln.get(akey(m), {}).get(v.pos) == a for m in mates if m["truth"][i]["full"] and not m["supp"])
+                if not prim_full:
+                    ctx.observe(f"{mode}: no allele for a variant only a supplementary alignment of the template covers (carried or none)")
+                elif found_by_mate and shared[name] > 1:
+                    ctx.fail(f"{mode}: allele {a} of {v!r} is detected on the alignment of read {name!r} of file {src} but the ReadSet has "
+                             + ("no read of that name and source id" if (src, name) not in got else "it not on that read")
+                             + f": the name {name!r} also denotes a different molecule in {shared[name] - 1} other file(s)", where(),
+                             key=KEY_SHARED_LOST)
+                elif len(mates) > 1 and found_by_mate:
                     ctx.fail(f"{mode}: allele {a} of {v!r} detected on a mate but missing from the merged read "
                              f"({mates[0]['paired']} pair)", where(), key=KEY_F12)
                 elif mode in ("ref", "affine"):
@@ -1022,10 +1082,10 @@ def oracle(ctx, case, label, mode, hv, listed, by_name, got, per_aln, valid=None
             # F11 is the behaviour of the window re-alignment *as specified* (the Lean model of the unchanged algorithm gives
             # the same wrong allele for this alignment); a wrong allele the algorithm's model does not give is a new failure
             inherent = per_aln_model is None or any(
-                per_aln_model.get((name, m["mate"] == 1), {}).get(v.pos) == g for m in mates if m["truth"][i]["full"])
+                per_aln_model.get(akey(m), {}).get(v.pos) == g for m in mates if m["truth"][i]["full"])
             if mode in ("ref", "affine") and not isolated and not inherent:
                 ctx.fail(f"{mode}: WRONG allele {g} (carried: {a}) for {v!r} on an error-free, fully covering read; the window "
-                         f"re-alignment as modelled gives {[per_aln_model.get((name, m['mate'] == 1), {}).get(v.pos) for m in mates]} "
+                         f"re-alignment as modelled gives {[per_aln_model.get(akey(m), {}).get(v.pos) for m in mates]} "
                          f"here, so this is not the known limitation F11", where(), key=f"wrong-allele-{mode}-close-not-inherent")
             elif mode in ("ref", "affine") and not isolated:
                 ctx.fail(f"{mode}: WRONG allele {g} (carried: {a}) for {v!r}: second non-REF allele of the same haplotype inside "
@@ -1119,10 +1179,17 @@ def _run(ctx):
         r = rng.random()
         stream = "isolated" if r < 0.55 else ("close" if r < 0.85 else "twins")
         alphabet = "ACGT" if rng.random() < 0.7 else rng.choice(["AC", "ACG"])
+        # the reads of a sample usually come from several alignment files (runs, lanes, technologies) that number their
+        # reads independently: 1-3 files, names reused between files for unrelated molecules (or unique), the same molecule in
+        # two files, and - within ONE file - the legitimate sharing of a name: mates, primary + supplementary alignment
+        n_files = rng.choice([1, 1, 2, 2, 3])
         sc = G.C06Scenario(rng, stream=stream, n_reads=rng.randrange(30, 70), alphabet=alphabet,
                            allow_shiftable=(rng.random() < 0.3), decorations=(rng.random() < 0.85),
-                           paired=rng.choice([0.0, 0.0, 0.3]))
+                           paired=rng.choice([0.0, 0.0, 0.3]), n_files=n_files, reuse_names=(rng.random() < 0.75),
+                           same_molecule=rng.choice([0.0, 0.1]), supplementary=rng.choice([0.0, 0.0, 0.25]))
         case = sc.to_case()
+        case["cfg"] = {"supplementary": rng.random() < 0.6, "threshold": rng.choice([100000, 100000, 150, 0]),
+                       "sample": rng.choice(["S1", "S1", None])}
         ctx.dist("scenario.stream", stream + ("/" + alphabet if alphabet != "ACGT" else ""))
         if k < 2:
             ctx.sample({"stream": stream, "variants": [repr(v) for v in sc.hvars][:6],
